@@ -97,6 +97,15 @@ class Witness(BaseNode):
         self.trace = trace  # "io" (ordered io_callback), "none"
         self.hash_ts = hash_ts
         self.delay_overrides = None  # {input_name: delay} returned by init_delays (C10: set a trainable delay through init_delays)
+        self.ts_shift = 0.0  # the step returns step_state.ts + ts_shift (wall clock: "the sensor data was taken later")
+        self.startup_sleep = 0.0  # seconds spent in startup() (C05: episode time must not include the start-up routine)
+
+    def startup(self, graph_state, timeout=None):
+        if self.startup_sleep:
+            import time
+
+            time.sleep(self.startup_sleep)
+        return True
 
     def init_delays(self, rng=None, graph_state=None):
         d = super().init_delays(rng, graph_state)
@@ -112,6 +121,10 @@ class Witness(BaseNode):
             return WParams(nonce=jnp.int32(0))
         return WParams(nonce=jax.random.randint(rng, (), 0, 1 << 20, dtype=jnp.int32))
 
+    @staticmethod
+    def _nonce(params):
+        return params.nonce if hasattr(params, "nonce") else params  # ScalarParamWitness: params is a bare int32 scalar
+
     def init_state(self, rng=None, graph_state=None):
         return WState(h=U32(0), cnt=jnp.int32(0))
 
@@ -126,7 +139,7 @@ class Witness(BaseNode):
         h = mix(h, _u(ss.seq))
         if self.hash_ts:
             h = mix(h, _bits(ss.ts))
-        h = mix(h, _u(ss.params.nonce))
+        h = mix(h, _u(self._nonce(ss.params)))
         slots = []
         for name in sorted(ss.inputs.keys()):
             i = ss.inputs[name]
@@ -147,15 +160,17 @@ class Witness(BaseNode):
         h = mix(h, _u(ss.state.h))
         new_state = WState(h=h, cnt=jnp.asarray(ss.state.cnt, jnp.int32) + 1)
         vec = jnp.stack([h, h ^ U32(VEC_X), (h >> 7) | U32(1)])
-        out = WOut(src=jnp.int32(self.idx), seq=jnp.asarray(ss.seq, jnp.int32), nonce=jnp.asarray(ss.params.nonce, jnp.int32), h=h, vec=vec)
+        out = WOut(src=jnp.int32(self.idx), seq=jnp.asarray(ss.seq, jnp.int32), nonce=jnp.asarray(self._nonce(ss.params), jnp.int32), h=h, vec=vec)
         if self.trace == "io":
             rb = jnp.asarray(ss.rng).astype(U32).reshape(-1)
             rn = jnp.asarray(rng).astype(U32).reshape(-1)
             vec = jnp.stack(
-                [U32(self.idx), _u(ss.eps), _u(ss.seq), _bits(ss.ts), rb[0], rb[1], _u(ss.params.nonce), _u(ss.state.h),
+                [U32(self.idx), _u(ss.eps), _u(ss.seq), _bits(ss.ts), rb[0], rb[1], _u(self._nonce(ss.params)), _u(ss.state.h),
                  _u(ss.state.cnt), h, rn[0], rn[1]] + slots
             )
             io_callback(_host_append, None, vec, ordered=True)
+        if self.ts_shift:
+            return ss.replace(rng=rng, state=new_state, ts=ss.ts + jnp.asarray(self.ts_shift, jnp.asarray(ss.ts).dtype)), out
         return ss.replace(rng=rng, state=new_state), out
 
 
@@ -181,3 +196,10 @@ def decode_trace(vecs, input_layout):
         d["inputs"] = ins
         out.append(d)
     return out
+
+
+class ScalarParamWitness(Witness):
+    """A witness whose params is a bare scalar (no dataclass): overrides may then be falsy values such as 0."""
+
+    def init_params(self, rng=None, graph_state=None):
+        return jnp.int32(5)
